@@ -30,8 +30,12 @@ class ExtractionError(Undecided):
     pass
 
 
+BUILD = os.environ.get("VERIF_BUILD", os.path.join(VERIF, ".build"))          # scratch (rebuilt on every run)
+EVDIR = os.environ.get("VERIF_EVIDENCE_DIR", os.path.join(VERIF, "evidence"))   # only the seed runner redirects this
+
+
 def builddir(pid):
-    d = os.path.join(VERIF, ".build", pid)
+    d = os.path.join(BUILD, pid)
     shutil.rmtree(d, ignore_errors=True)
     os.makedirs(d)
     return d
@@ -243,8 +247,8 @@ class Report:
         cov.update(self.extra)
         ev = dict(property_id=self.pid, tier=self.tier, seed=SEED, level=self.level, coverage=cov,
                   assumptions=self.assumptions, wall_s=round(wall, 2), violations=len(vio))
-        os.makedirs(os.path.join(VERIF, "evidence"), exist_ok=True)
-        with open(os.path.join(VERIF, "evidence", self.pid + ".json"), "w") as f:
+        os.makedirs(EVDIR, exist_ok=True)
+        with open(os.path.join(EVDIR, self.pid + ".json"), "w") as f:
             json.dump(ev, f, indent=1)
         nfail = len(self.failed())
         print("%s [%s]: %d obligations, %d discharged, %d failed (%d known), %d bounded, %d undecided, %.1fs" %
@@ -262,7 +266,7 @@ class Report:
 
 
 def write_replay(pid, oid, data):
-    d = os.path.join(VERIF, ".build", "replay", pid)
+    d = os.path.join(BUILD, "replay", pid)
     os.makedirs(d, exist_ok=True)
     safe = re.sub(r"[^A-Za-z0-9_.-]+", "_", oid)[:120]
     path = os.path.join(d, safe + ".json")
